@@ -77,15 +77,16 @@ pub fn to_nfa<T>(re: &Re) -> NFA<T> {
             }
             NFA::predicate(move |x| member[x as usize])
         }
+        // two operands: through the operator or through the n-ary combinator, decided by the shape
         Re::Seq(parts) => {
-            if parts.len() == 2 {
+            if parts.len() == 2 && parts[0].size() % 2 == 1 {
                 to_nfa(&parts[0]) + to_nfa(&parts[1])
             } else {
                 NFA::sequence(parts.iter().map(to_nfa))
             }
         }
         Re::Alt(parts) => {
-            if parts.len() == 2 {
+            if parts.len() == 2 && parts[0].size() % 2 == 1 {
                 to_nfa(&parts[0]) | to_nfa(&parts[1])
             } else {
                 NFA::choice(parts.iter().map(to_nfa))
@@ -841,8 +842,15 @@ fn gen_re(rng: &mut Rng, depth: usize, alphabet: &[u8]) -> Re {
     let small = |rng: &mut Rng| gen_re(rng, depth.saturating_sub(2).max(1), alphabet);
     match rng.below(24) {
         0..=2 => atom(rng, alphabet),
-        3..=5 => Re::seq((0..rng.range(2, 3)).map(|_| sub(rng)).collect::<Vec<_>>()),
-        6 | 7 => Re::alt((0..rng.range(2, 3)).map(|_| sub(rng)).collect::<Vec<_>>()),
+        // arities 1..=4: a one-operand choice / sequence is a legal use of the combinators too
+        3..=5 => {
+            let n = if rng.chance(1, 6) { 1 } else { rng.range(2, 4) };
+            Re::seq((0..n).map(|_| sub(rng)).collect::<Vec<_>>())
+        }
+        6 | 7 => {
+            let n = if rng.chance(1, 4) { 1 } else { rng.range(2, 4) };
+            Re::alt((0..n).map(|_| sub(rng)).collect::<Vec<_>>())
+        }
         8 => {
             // choice with shared prefixes
             let head = small(rng);
